@@ -195,6 +195,13 @@ JSvd(r) ==
              /\ Clause(i, "C19.svd.weight_scaling.rank", d.rank = b.rank)
              /\ ClauseAll(i, "C19.svd.weight_scaling.axes", Iso, LAMBDA k : NearVecUpToSign(d.basis[k], B[k], 4))
 
+\* tilted near-square plates with coordinates of a few hundred units (beyond the exact clauses): the singular values come
+\* back in non-increasing order and the first axis is the direction of largest spread
+JSvdOrder(r) ==
+    /\ Clause(i, "C19.svd.finite", r.out.finite)
+    /\ Clause(i, "C19.svd.ordered", r.out.ordered)
+    /\ Clause(i, "C19.svd.largest_spread_first", r.out.largest_first)
+
 Judge(r) ==
     /\ Sane(i, r)
     /\ Ran(r) =>
@@ -202,6 +209,7 @@ Judge(r) ==
           [] r.op = "xyo"   -> JXyo(r)
           [] r.op = "plane" -> JPlane(r)
           [] r.op = "svd"   -> JSvd(r)
+          [] r.op = "svdorder" -> JSvdOrder(r)
           [] r.op = "reset" -> TRUE
           [] OTHER          -> Clause(i, "unknown-op", FALSE)
 
